@@ -670,8 +670,3 @@ func TestPropLinearizable(t *testing.T) {
 	vlib.Check(t, 400, 6000, linearizableCase)
 }
 
-// TestRaceLinearizable is the same property in the binary built with -race
-// (thorough tier): the race detector must stay silent on the storage code.
-func TestRaceLinearizable(t *testing.T) {
-	vlib.Check(t, 300, 1500, linearizableCase)
-}
